@@ -4,6 +4,7 @@ import ColoVerif.Model.BindingRules
 import ColoVerif.Gen.Bindings
 import ColoVerif.Proofs.Ispd
 import ColoVerif.Model.IspdText
+import ColoVerif.Model.LegacyIspdText
 import ColoVerif.Proofs.IspdText
 import ColoVerif.Proofs.IspdTextAux
 /-
@@ -114,8 +115,8 @@ theorem roundtrip_text_hpwl (c : Circuit) (h : inDomain c = true) :
 open ColoVerif.Ispd.Text in
 /-- **Round trip through the files.**  `read_ispd("<pre>.aux")` — and `read_ispd("<pre>")`, which appends
 `.aux` — on the five files that `exportIspd("<pre>")` leaves behind selects the four data files through the
-`.aux` file and reproduces the circuit, for every prefix without white space that is absolute or has no
-directory part. -/
+`.aux` file and reproduces the circuit, for every prefix — absolute, relative with a directory part, or bare —
+whose base name has no white space and whose directory part does not end in a doubled `/`. -/
 theorem roundtrip_files (pre : Line) (c : Circuit) (hp : goodPrefix pre = true) (h : inDomain c = true) :
     (∃ c', readIspd (exportFS pre c) .exists_ (pre ++ ".aux".toList) = .ok c' ∧ Agree c c') ∧
     (∃ c', readIspd (exportFS pre c) .missing pre = .ok c' ∧ Agree c c') := by
@@ -123,12 +124,13 @@ theorem roundtrip_files (pre : Line) (c : Circuit) (hp : goodPrefix pre = true) 
   exact ⟨roundtrip_text c h, roundtrip_text c h⟩
 
 open ColoVerif.Ispd.Text in
-/-- The condition on the prefix is needed: `exportIspd("out/d")` writes `out/d.nodes …` into `out/d.aux`, and
-the reader joins these names to the directory of the `.aux` file once more (`out/out/d.nodes`):
-`RuntimeError("Could not find file …")`. -/
+/-- F18 (before the fix): `exportIspd("out/d")` wrote `out/d.nodes …` into `out/d.aux`, and the reader joins
+these names to the directory of the `.aux` file once more (`out/out/d.nodes`):
+`RuntimeError("Could not find file …")`.  With the fixed writer the same prefix reads back. -/
 theorem relative_prefix_with_directory_lost :
-    readIspd (exportFS "out/d".toList Legacy.witnessRows) .exists_ "out/d.aux".toList = .error .runtime ∧
-    inDomain Legacy.witnessRows = true := by
+    readIspd (Legacy.exportFS "out/d".toList Ispd.Legacy.witnessRows) .exists_ "out/d.aux".toList = .error .runtime ∧
+    (readIspd (exportFS "out/d".toList Ispd.Legacy.witnessRows) .exists_ "out/d.aux".toList).toOption.isSome = true ∧
+    inDomain Ispd.Legacy.witnessRows = true := by
   decide +kernel
 
 open ColoVerif.Ispd.Text in
@@ -160,9 +162,11 @@ theorem load_write_placement (nm : List String) (c c0 : Circuit) (hnd : nm.Nodup
   · exact (setPlacement_maps c0.cells c.cells hlen0).2
 
 /-- non-vacuity: the text-level hypotheses hold for the names export.cpp gives (`o0`, `o1`), for an absolute
-prefix and for a bare one; a circuit with a seven-digit offset is outside `printable` -/
+prefix, a bare one and relative ones with directory parts -/
 example : Ispd.Text.printable Legacy.witnessPins = true ∧ Ispd.Text.goodPrefix "/tmp/x/d".toList = true ∧
-    Ispd.Text.goodPrefix "d".toList = true ∧ Ispd.Text.goodPrefix "out/d".toList = false := by decide
+    Ispd.Text.goodPrefix "d".toList = true ∧ Ispd.Text.goodPrefix "out/d".toList = true ∧
+    Ispd.Text.goodPrefix "a/b c/d".toList = true ∧ Ispd.Text.goodPrefix "/d".toList = true ∧
+    Ispd.Text.goodPrefix "out//d".toList = false ∧ Ispd.Text.goodPrefix "out/d e".toList = false := by decide
 example : [cellName 0, cellName 1].Nodup ∧ ∀ s ∈ [cellName 0, cellName 1], Ispd.Text.nameOk s.toList := by
   refine ⟨by decide, ?_⟩
   intro s hs
